@@ -183,20 +183,42 @@ def check_property(pid, tier, seed, only=None):
                 e = child_env(overlays[v], v)
                 e.update(c.get("env") or {})
                 out = os.path.join(tmpdir, "r%d.json" % i)
-                futs[ex.submit(run_worker, args, e, out, timeout)] = (kind, c, s, rp)
+                if v == "asan":
+                    e["PCDVERIF_JOURNAL"] = out + ".journal"
+                futs[ex.submit(run_worker, args, e, out, timeout)] = (kind, c, s, rp, out)
             for fu in cf.as_completed(futs):
-                kind, c, s, rp = futs[fu]
+                kind, c, s, rp, out_path = futs[fu]
                 res = fu.result()
+                res["_out_path"] = out_path
                 results.append((kind, c, s, rp, res))
         results.sort(key=lambda x: (x[0] != "replay", x[1]["name"], x[2]))
         for kind, c, s, rp, res in results:
             name = c["name"]
             pc = per_check.setdefault(name, {"evaluations": 0, "distinct_nontrivial": set(), "wall_s": 0.0,
                                              "replayed": 0, "shards": 0})
+            if res["status"] == "died" and c.get("variant") == "asan" and res.get("rc") not in (0, 2, -999, None):
+                # sanitizer report (exit code 99) or a fatal signal: the journalled case is the reproducer
+                jpath = res.get("_out_path", "") + ".journal"
+                case_j = {"note": "no journal"}
+                if jpath and os.path.exists(jpath):
+                    with open(jpath) as jf:
+                        case_j = json.load(jf).get("case")
+                outp = res.get("output", "")
+                import re as _re
+                m_ = _re.search(r"ERROR: AddressSanitizer: ([a-z0-9-]+)", outp)
+                m2_ = _re.search(r"#\d+ 0x[0-9a-f]+ in ([A-Za-z0-9_]+) .*?/src/([A-Za-z0-9_]+\.c)", outp)
+                bucket = "asan/%s%s" % (m_.group(1) if m_ else ("signal%d" % -res["rc"] if res["rc"] < 0 else "exit%d" % res["rc"]),
+                                        ("@%s:%s" % (m2_.group(2), m2_.group(1))) if m2_ else "")
+                kk = known_match(known, pid, name, bucket)
+                if kk:
+                    known_seen[(name, bucket)] = kk
+                    merged["excluded_known"][bucket] = merged["excluded_known"].get(bucket, 0) + 1
+                    continue
+                v_ = {"bucket": bucket, "message": "native code fault while executing the journalled case: " + (outp[outp.find("ERROR: AddressSanitizer"):][:600] if m_ else outp[-400:]),
+                      "case": case_j, "confirmed": True}
+                violations.append((name, v_, rp if rp else write_replay(pid, name, v_)))
+                continue
             if res["status"] in ("died",) or (res["status"] == "harness_error"):
-                if c.get("variant") == "asan" and res.get("rc") not in (0, 2, None) and res["status"] == "died":
-                    # sanitizer abort or crash: handled by the custom check normally; treat as harness error here
-                    pass
                 harness_errors.append((name, s, res.get("error") or ("worker died rc=%s\n%s" % (res.get("rc"), res.get("output", "")))))
                 continue
             rec = res.get("rec", {})
@@ -320,13 +342,38 @@ def replay(path, seed=1):
     ensure_deps()
     so = build.native("plain", log=log)
     ov = build.overlay(so, tag="replay-%d" % os.getpid())
+    ovs = [ov]
     try:
         env = child_env(ov)
+        variant = "plain"
+        try:
+            info = list_checks(pid, env)
+            c = next((c for c in info["checks"] if c["name"] == chk), None)
+            if c is not None:
+                variant = c.get("variant", "plain")
+                extra_env = c.get("env") or {}
+            else:
+                extra_env = {}
+        except Exception:
+            extra_env = {}
+        if variant != "plain":
+            so_v = build.native(variant, log=log)
+            ov_v = build.overlay(so_v, tag="replay-%s-%d" % (variant, os.getpid()))
+            ovs.append(ov_v)
+            env = child_env(ov_v, variant)
+        env.update(extra_env)
         out = os.path.join(ov, "_replay.json")
+        if variant == "asan":
+            env["PCDVERIF_JOURNAL"] = out + ".journal"
         res = run_worker(["--prop", pid, "--check", chk, "--tier", "quick", "--seed", str(seed),
                           "--replay", os.path.abspath(path)], env, out, 3600)
     finally:
-        shutil.rmtree(ov, ignore_errors=True)
+        for o in ovs:
+            shutil.rmtree(o, ignore_errors=True)
+    if res["status"] == "died" and variant == "asan" and res.get("rc") not in (0, 2, -999, None):
+        log("replay reproduces: the process died (rc=%s): %s" % (res.get("rc"), res.get("output", "")[-600:]))
+        print("VIOLATION property=%s replay=%s" % (pid, path))
+        return 1
     if res["status"] == "violation":
         log("replay reproduces: bucket %s: %s" % (res["violation"]["bucket"], res["violation"]["message"][:500]))
         print("VIOLATION property=%s replay=%s" % (pid, path))
